@@ -75,9 +75,10 @@ func belongs(o *Obligation, ct *Contract, prop string) bool {
 			fp = ct.Props
 		}
 		if o.Kind == "variant" && !has(fp, "C05") {
-			// termination is part of C05 (received bytes cannot hang a decoder), C16 (enumerations
-			// terminate) and C13; for other properties a loop's variant is not an obligation
-			return (prop == "C16" || prop == "C13") && has(fp, prop)
+			// termination is part of C05 (received bytes cannot hang a decoder) and C16 (enumerations
+			// terminate); for other properties a loop's variant is not an obligation (C13 bounds
+			// blocking calls by the context, not by a loop measure)
+			return prop == "C16" && has(fp, prop)
 		}
 		if has(fp, "C05") {
 			// a decoder that panics or over-reads also fails to "reject with an error" (C07)
@@ -219,7 +220,9 @@ func runCheck(repo, contracts string, args []string, tier string, timeout time.D
 		setAdd(&warnings, r.Warnings)
 		if r.Vacuity != "ok" {
 			vacuity = append(vacuity, r.Name+": "+r.Vacuity)
-			if r.Vacuity == "VACUOUS" {
+			if r.Vacuity == "VACUOUS" && r.NotDischarged == 0 {
+				// (when an assertion of the function fails on every path, assuming it afterwards
+				// blocks every path: that is the reported violation, not a vacuous proof)
 				fmt.Fprintf(os.Stderr, "engine fault: assumptions of %s are contradictory (vacuous proof)\n", r.Name)
 				fault = true
 			}
